@@ -5,4 +5,4 @@ LEVEL = "proof"
 
 
 def run(chk, replay=None):
-    proccheck.run(chk, "PropC04", {'multi', 260, 4000, 6,'mixed':2,'lifecycle':1}:[102,401], replay=replay)
+    proccheck.run(chk, "PropC04", {'multi': 6, 'mixed': 2, 'lifecycle': 1}, 260, 4000, [102, 401], replay=replay)
